@@ -1,4 +1,4 @@
-import Csverif.Proofs.StateHook
+import Csverif.Proofs.StateMoving
 /-
 C11: `ent[side].changed = v` (the `changed` branch of `updated`, state.py:787-793) and `ent.priority = v`.
 The hook recurses (it may zero the other side's flag); everything it does is confined to the `changed` fields of
@@ -14,12 +14,14 @@ structure ChgRel (e : Nat) (st st' : St) : Prop where
   paths : ∀ s, st'.paths s = st.paths s
   sides : ∀ i s, { st'.side i s with changed := .none } = { st.side i s with changed := .none }
   others : ∀ i, i ≠ e → (∀ s, (st'.side i s).changed = (st.side i s).changed) ∧ (i ∈ st'.cs ↔ i ∈ st.cs)
+  mov : st'.moving = st.moving
 
-theorem ChgRel.refl (e : Nat) (st : St) : ChgRel e st st := ⟨rfl, fun _ => rfl, fun _ => rfl, fun _ _ => rfl, fun _ _ => ⟨fun _ => rfl, Iff.rfl⟩⟩
+theorem ChgRel.refl (e : Nat) (st : St) : ChgRel e st st := ⟨rfl, fun _ => rfl, fun _ => rfl, fun _ _ => rfl, fun _ _ => ⟨fun _ => rfl, Iff.rfl⟩, rfl⟩
 theorem ChgRel.trans {e st st' st''} (h1 : ChgRel e st st') (h2 : ChgRel e st' st'') : ChgRel e st st'' :=
   ⟨h2.len.trans h1.len, fun s => (h2.oids s).trans (h1.oids s), fun s => (h2.paths s).trans (h1.paths s),
    fun i s => (h2.sides i s).trans (h1.sides i s),
-   fun i hi => ⟨fun s => ((h2.others i hi).1 s).trans ((h1.others i hi).1 s), (h2.others i hi).2.trans (h1.others i hi).2⟩⟩
+   fun i hi => ⟨fun s => ((h2.others i hi).1 s).trans ((h1.others i hi).1 s), (h2.others i hi).2.trans (h1.others i hi).2⟩,
+   h2.mov.trans h1.mov⟩
 
 theorem ChgRel.field {e st st'} (h : ChgRel e st st') (i : Nat) (s : Sd) :
     (st'.side i s).oid = (st.side i s).oid ∧ (st'.side i s).path = (st.side i s).path ∧
@@ -50,13 +52,13 @@ theorem ChgRel.pend {e st st'} (h : ChgRel e st st') (hP : Pend st) (he : PendE 
     exact (h.others i hie).2.2 (hP i ⟨s, h1, h2⟩)
 
 theorem chgRel_csAdd (e : Nat) (st : St) : ChgRel e st (st.csAdd e) :=
-  ⟨rfl, fun s => by simp, fun s => by simp, fun _ _ => rfl, fun i hi => ⟨fun _ => rfl, by simp [hi]⟩⟩
+  ⟨rfl, fun s => by simp, fun s => by simp, fun _ _ => rfl, fun i hi => ⟨fun _ => rfl, by simp [hi]⟩, rfl⟩
 theorem chgRel_csDiscard (e : Nat) (st : St) : ChgRel e st (st.csDiscard e) :=
-  ⟨rfl, fun s => by simp, fun s => by simp, fun _ _ => rfl, fun i hi => ⟨fun _ => rfl, by simp [hi]⟩⟩
+  ⟨rfl, fun s => by simp, fun s => by simp, fun _ _ => rfl, fun i hi => ⟨fun _ => rfl, by simp [hi]⟩, rfl⟩
 theorem chgRel_dirtyAdd (e j : Nat) (st : St) : ChgRel e st (st.dirtyAdd j) :=
-  ⟨rfl, fun s => by simp, fun s => by simp, fun _ _ => rfl, fun i _ => ⟨fun _ => rfl, by simp⟩⟩
+  ⟨rfl, fun s => by simp, fun s => by simp, fun _ _ => rfl, fun i _ => ⟨fun _ => rfl, by simp⟩, rfl⟩
 theorem chgRel_setChanged (e : Nat) (s : Sd) (v : Chg) (st : St) : ChgRel e st (st.modSide e s (fun x => { x with changed := v })) := by
-  refine ⟨by simp, fun s => by simp, fun s => by simp, fun i s' => ?_, fun i hi => ⟨fun s' => ?_, by simp⟩⟩
+  refine ⟨by simp, fun s => by simp, fun s => by simp, fun i s' => ?_, fun i hi => ⟨fun s' => ?_, by simp⟩, rfl⟩
   · rw [side_modSide]; split
     · next hh => obtain ⟨h1, h2, _⟩ := hh; subst h1; subst h2; rfl
     · rfl
@@ -68,7 +70,7 @@ theorem chgRel_modEnt_prio (e : Nat) (v : Int) (st : St) : ChgRel e st (st.modEn
     intro i s; unfold St.side; rw [ent_modEnt]; split
     · next hh => obtain ⟨h1, _⟩ := hh; subst h1; cases s <;> rfl
     · rfl
-  exact ⟨by simp, fun s => by simp, fun s => by simp, fun i s => by rw [hs], fun i _ => ⟨fun s => by rw [hs], by simp⟩⟩
+  exact ⟨by simp, fun s => by simp, fun s => by simp, fun i s => by rw [hs], fun i _ => ⟨fun s => by rw [hs], by simp⟩, rfl⟩
 
 /-- the state after the `changed` branch of `updated` -/
 def chgHook (st : St) (e : Nat) (s : Sd) (v : Chg) : St :=
